@@ -126,7 +126,7 @@ func cmdCheck(args []string) {
 		os.Exit(2)
 	}
 	start := time.Now()
-	timeout := 20000
+	timeout := 40000
 	if pc.QuickMs > 0 {
 		timeout = pc.QuickMs
 	}
